@@ -140,11 +140,11 @@ def run(ctx):
     # ---- sweeps (yaml) + carrier equivalence at one value --------------------------------------------------------------
     for (c, sec, key, values) in staircase.SWEEPS:
         for v in values:
-            idx[("sweep", c, key, json.dumps(v))] = P.add(("sweep", c, key, v), proj, c, merged(BASE, sec_cfg(sec, key, v)), "yaml-hyphen")
+            idx[("sweep", c, sec + ":" + key, json.dumps(v))] = P.add(("sweep", c, sec + ":" + key, v), proj, c, merged(BASE, sec_cfg(sec, key, v)), "yaml-hyphen")
         mid = values[len(values) // 2] if len(values) > 2 else values[-1]
         cs = carriers if not ctx.quick else rng.sample(carriers[1:], 4)
         for k in cs:
-            idx[("carrier", c, key, k)] = P.add(("carrier", c, key, k, mid), proj, c, merged(BASE, sec_cfg(sec, key, mid)), k)
+            idx[("carrier", c, sec + ":" + key, k)] = P.add(("carrier", c, sec + ":" + key, k, mid), proj, c, merged(BASE, sec_cfg(sec, key, mid)), k)
     # ---- precedence -------------------------------------------------------------------------------------------------
     import yaml
     def nest(v):
@@ -249,17 +249,17 @@ def run(ctx):
                             "`%s`: %s.enabled=false via %s still yields %d violations (e.g. %r)" % (c, staircase.SECTIONS[c], k, len(r["v"]), r["v"][0][:3]), rep(i), P.jobs[i][0])
     # sweeps
     for (c, sec, key, values) in staircase.SWEEPS:
-        sets = [vset(res(("sweep", c, key, json.dumps(v)))) for v in values]
+        sets = [vset(res(("sweep", c, sec + ":" + key, json.dumps(v)))) for v in values]
         if key in staircase.MESSAGE_LEVEL and all(x is not None for x in sets):
             # settings whose documented effect is on wording / extra notices at the same place: compare the messages too
-            sets = [{(x[0], x[1], x[2], x[4]) for x in res(("sweep", c, key, json.dumps(v)))["v"]} for v in values]
+            sets = [{(x[0], x[1], x[2], x[4]) for x in res(("sweep", c, sec + ":" + key, json.dumps(v)))["v"]} for v in values]
         if c == "dry" and all(x is not None for x in sets):
             # DRY windows start at different lines for different window sizes: compare the covered lines instead
             import re as _re
             cov = []
             for v in values:
                 lines_cov = set()
-                for row in res(("sweep", c, key, json.dumps(v)))["v"]:
+                for row in res(("sweep", c, sec + ":" + key, json.dumps(v)))["v"]:
                     m = _re.match(r"Duplicate code \((\d+) lines", row[4])
                     n = int(m.group(1)) if m else 1
                     lines_cov |= {(row[0], row[1], ln) for ln in range(row[2], row[2] + n)}
@@ -267,12 +267,12 @@ def run(ctx):
             sets = cov
         if any(s is None for s in sets):
             bad = [v for v, s in zip(values, sets) if s is None]
-            i = idx[("sweep", c, key, json.dumps(bad[0]))]
+            i = idx[("sweep", c, sec + ":" + key, json.dumps(bad[0]))]
             ctx.discrepancy("sweep-error:%s.%s" % (sec, key), "`%s` with %s.%s=%r: exit %s %s" % (c, sec, key, bad[0], R[i]["exit"], R[i]["err"]), rep(i), P.jobs[i][0])
             continue
         ctx.count("sweeps")
         ctx.nontrivial(["sweep", c, key])
-        i0 = idx[("sweep", c, key, json.dumps(values[0]))]
+        i0 = idx[("sweep", c, sec + ":" + key, json.dumps(values[0]))]
         if sets[0] == sets[-1]:
             ctx.discrepancy("setting-no-effect:%s.%s" % (sec, key), "`%s`: %s.%s swept over %r never changes the output (%d violations)" % (c, sec, key, values, len(sets[0])), rep(i0), P.jobs[i0][0])
             continue
@@ -296,7 +296,7 @@ def run(ctx):
 
                 def intervals(v):
                     out = []
-                    for row in res(("sweep", c, key, json.dumps(v)))["v"]:
+                    for row in res(("sweep", c, sec + ":" + key, json.dumps(v)))["v"]:
                         m = _re.match(r"Duplicate code \((\d+) lines", row[4])
                         out.append((row[1], row[2], row[2] + (int(m.group(1)) if m else 1) - 1))
                     return out
@@ -318,7 +318,7 @@ def run(ctx):
         if key[0] != "carrier":
             continue
         _, c, skey, k = key
-        sweep = [s for s in staircase.SWEEPS if s[0] == c and s[2] == skey][0]
+        sweep = [s for s in staircase.SWEEPS if s[0] == c and s[1] + ":" + s[2] == skey][0]
         values = sweep[3]
         mid = values[len(values) // 2] if len(values) > 2 else values[-1]
         ref = res(("sweep", c, skey, json.dumps(mid)))
@@ -333,15 +333,15 @@ def run(ctx):
             kind = "group-opt" if k.startswith("group") else k.split("-")[0] if not k.startswith("opt") else "opt"
             spelled = "underscore" if k.endswith("underscore") else "hyphen"
             same_as_default = r["v"] == dflt["v"]
-            ctx.discrepancy("carrier-differs:%s.%s:%s%s" % (sweep[1], skey, kind, ":ignored" if same_as_default else ""),
+            ctx.discrepancy("carrier-differs:%s.%s:%s%s" % (sweep[1], sweep[2], kind, ":ignored" if same_as_default else ""),
                             "`%s` %s.%s=%r via %s (%s) differs from the same setting in .thailint.yaml%s: exit %s vs %s, %s vs %s violations %s" % (
-                                c, sweep[1], skey, mid, k, spelled, " and equals the default-configuration output" if same_as_default else "",
+                                c, sweep[1], sweep[2], mid, k, spelled, " and equals the default-configuration output" if same_as_default else "",
                                 r["exit"], ref["exit"], None if r["v"] is None else len(r["v"]), len(ref["v"]), r["err"][-120:]), rep(i), P.jobs[i][0])
     # precedence
     def same(a, b):
         return a["v"] == b["v"] and a["exit"] == b["exit"]
-    n3 = res(("sweep", "nesting", "max_nesting_depth", "3"))
-    n6 = res(("sweep", "nesting", "max_nesting_depth", "6"))
+    n3 = res(("sweep", "nesting", "nesting:max_nesting_depth", "3"))
+    n6 = res(("sweep", "nesting", "nesting:max_nesting_depth", "6"))
     for name, want in (("yaml>json", n3), ("json>pyproject", n6), ("yaml>pyproject", n3)):
         i = idx[("prec", name)]
         ctx.count("precedence_cases")
@@ -366,7 +366,7 @@ def run(ctx):
                                 "`%s %s %s` loses to per-language overrides %s.<lang>.%s=%s for files of type %s" % (c, opt, cli_v, sec, key, file_v, langs_off), rep(i2), P.jobs[i2][0])
     i = idx[("lang-override",)]
     got = vset(R[i])
-    want_py = {x for x in vset(res(("sweep", "nesting", "max_nesting_depth", "2"))) if x[1].endswith(".py")}
+    want_py = {x for x in vset(res(("sweep", "nesting", "nesting:max_nesting_depth", "2"))) if x[1].endswith(".py")}
     want_other = {x for x in vset(n6) if not x[1].endswith(".py")}
     ctx.count("language_override_cases")
     if got != want_py | want_other:
